@@ -1205,6 +1205,470 @@ def section_cqm(ctx, r, corr):
             corr.add(f'irange {rat(lb)} {rat(ub)}', ','.join(str(int(x)) for x in es._iterator_by_vartype(cqm, v)), '_iterator_by_vartype', f'{v!r}: [{lb}, {ub}]')
 
 
+# ------------------------------------------------------------------ section R7: remaining branches of the polynomial composites
+
+def _is_pow2(q):
+    q = abs(F(q))
+    return q != 0 and (q.numerator & (q.numerator - 1)) == 0 and (q.denominator & (q.denominator - 1)) == 0
+
+
+def _rows_exp(rows):
+    return '|'.join(sorted(','.join(sorted(f'{lab(v)}={rat(x[v])}' for v in x)) + '@' + rat(e) for x, e in rows))
+
+
+def section_round7(ctx, r, corr):
+    """PolyScaleComposite(scalar=None) = BinaryPolynomial.normalize + recovered scalar; PolyFixedVariableComposite with every
+    branch (None / {} / part / all / more than all variables fixed x a child with and without rows); Truncate/PolyTruncate
+    `__init__` with n < 1.  Real composites over real children; each answer against the submitted problem (predicate) and
+    against the Lean model (`pnorm`, `pfull`, `tinit`)."""
+    # ---- (a) PolyScaleComposite, scalar=None
+    for pi in range(ctx.scale(600, 9000)):
+        pow2 = r.random() < .5
+        prob = PolyProblem(r, pow2=pow2)
+        n = len(prob.labels)
+        src = prob.src()
+        keys = [k for k in prob.terms if len(k) > 0]
+        ign = r.sample(keys, r.randint(1, min(2, len(keys)))) if keys and r.random() < .4 else []
+        ign_const = bool(ign) and frozenset() in prob.terms and r.random() < .15
+        live = {k: b for k, b in prob.terms.items() if k not in ign}
+        L = max([abs(b) for k, b in live.items() if len(k) == 1] or [F(0)])
+        P = max([abs(b) for k, b in live.items() if len(k) > 1] or [F(0)])
+        mode = r.choice(['default', 'num', 'num', 'both', 'pair', 'pair', 'zero'])
+
+        def one_range(M, kind):
+            """a range whose relevant end makes the quotient a power of two: number or pair"""
+            base = M if (M != 0 and not pow2) else F(1)
+            R = base * r.choice([1, 2, 4, F(1, 2), F(1, 4)])
+            if kind == 'num':
+                return R * r.choice([1, 1, -1])
+            if pow2:
+                return r.choice([(-R, R), (-R, 2 * R), (-2 * R, R), (-R / 2, 4 * R), (R, -R), (2 * R, R)])
+            return (-R, R)
+        kw = {}
+        zero = False
+        if mode == 'default':
+            pass
+        elif mode == 'num':
+            kw['bias_range'] = one_range(max(L, P), 'num')
+        elif mode == 'both':
+            kw['bias_range'] = one_range(L, r.choice(['num', 'pair']))
+            kw['poly_range'] = one_range(P, r.choice(['num', 'pair']))
+        elif mode == 'pair':
+            kw['bias_range'] = one_range(max(L, P), 'pair')
+        else:
+            zero = True
+            z = r.choice([0, (0, 1), (-1, 0), (0, 0)])
+            if r.random() < .5:
+                kw['bias_range'] = z
+            else:
+                kw['bias_range'] = r.choice([1, 2, (-1, 1)]); kw['poly_range'] = z
+        # exactness guard (independent of the model): inv_scalar must be 0 or a power of two
+        def ends(a):
+            return (-abs(F(a)), abs(F(a))) if not isinstance(a, tuple) else (F(a[0]), F(a[1]))
+        lr = ends(kw.get('bias_range', 1)); prg = ends(kw['poly_range']) if 'poly_range' in kw else lr
+        if not zero:
+            lmin = min([b for k, b in live.items() if len(k) == 1] + [F(0)]); lmax = max([b for k, b in live.items() if len(k) == 1] + [F(0)])
+            pmin = min([b for k, b in live.items() if len(k) > 1] + [F(0)]); pmax = max([b for k, b in live.items() if len(k) > 1] + [F(0)])
+            inv = max(lmin / lr[0], lmax / lr[1], pmin / prg[0], pmax / prg[1])
+            if inv != 0 and not _is_pow2(inv):
+                ctx.tick('r7:pnorm skipped (inexact)')
+                continue
+        fl = lambda a: tuple(float(x) for x in a) if isinstance(a, tuple) else float(a)  # noqa: E731
+        kwf = {k: fl(v) for k, v in kw.items()}
+        ignk = [tuple(k) for k in ign] + ([()] if ign_const else [])
+        if ignk:
+            kwf['ignored_terms'] = ignk
+        call = 'dimod.PolyScaleComposite(dimod.ExactPolySolver()).sample_poly(POLY' + ''.join(f', {k}={v!r}' for k, v in kwf.items()) + ')'
+        site = 'PolyScaleComposite.sample_poly'
+        ctx.case(('pnorm', pi, n, mode, repr(sorted(kwf.items()))), nontrivial=n > 0 and bool(keys),
+                 sample=dict(call=call, problem=src[:300]) if pi % 97 == 5 else None)
+        ctx.tick(f'r7:pnorm {mode}' + (' ignored' if ignk else ''))
+        try:
+            ss = dimod.PolyScaleComposite(dimod.ExactPolySolver()).sample_poly(prob.poly(), **kwf)
+            got = 'ok'
+        except ZeroDivisionError:
+            ss, got = None, 'err'
+        except Exception as e:  # noqa
+            ctx.fail('property', site, f'scalar=None {type(e).__name__}', f'{call}: {type(e).__name__}: {e}', repro=PRE + src + call + '\n')
+            continue
+        if (got == 'err') != zero:
+            ctx.fail('property', site, 'scalar=None range end 0', f'{call}: {"refused" if got == "err" else "accepted"}',
+                     repro=PRE + src + ('try:\n    ' + call + '\nexcept ZeroDivisionError:\n    pass\nelse:\n    raise AssertionError("accepted")\n' if zero else call + '\n'))
+            continue
+        if ss is not None:
+            if not validate(ctx, ss, prob, site, f'scalar=None {prob.vartype} {mode}' + (' ignored_terms' if ignk else ''), src, call,
+                            exact=prob.labels if n else None):
+                continue
+        if not ign_const:
+            def rtxt(a):
+                return f'{rat(F(a[0]))}:{rat(F(a[1]))}' if isinstance(a, tuple) else rat(F(a))
+            line = (f"pnorm {int(prob.spin)} {rtxt(kw.get('bias_range', 1))} {rtxt(kw['poly_range']) if 'poly_range' in kw else '-'} ; "
+                    + ('|'.join('&'.join(lab(v) for v in k) for k in ign) or '-') + f' ; {prob.wire()}')
+            corr.add(line, 'err' if ss is None else 'ok ' + _rows_exp(rows_of(ss)), site, src + call)
+    # ---- (b) PolyFixedVariableComposite, every branch
+    for pi in range(ctx.scale(600, 9000)):
+        prob = PolyProblem(r)
+        n = len(prob.labels)
+        src = prob.src()
+        m = r.choice(['none', 'empty', 'part', 'part', 'part', 'part', 'all', 'more'])
+        childk = r.choice(['exact', 'exact', 'null']) if m != 'part' else r.choice(['exact', 'null'])
+        if m == 'none':
+            fixed = None
+        elif m == 'empty':
+            fixed = {}
+        elif m == 'part':
+            fixed = {v: r.choice(prob.domain(v)) for v in r.sample(prob.labels, r.randint(0, n))}
+        else:
+            fixed = {v: r.choice(prob.domain(v)) for v in r.sample(prob.labels, n)}
+            if m == 'more':
+                fixed[r.choice(['nowhere', 77])] = r.choice(prob.domain(None))
+        csrc = 'dimod.ExactPolySolver()' if childk == 'exact' else 'dimod.HigherOrderComposite(dimod.NullSampler())'
+        child = dimod.ExactPolySolver() if childk == 'exact' else dimod.HigherOrderComposite(dimod.NullSampler())
+        call = f'dimod.PolyFixedVariableComposite({csrc}).sample_poly(POLY, fixed_variables={fixed!r})'
+        site = 'PolyFixedVariableComposite.sample_poly'
+        free = [v for v in prob.labels if not (fixed and v in fixed)]
+        branch = ('None' if fixed is None else 'child rows' if (childk == 'exact' and free) else
+                  'no child rows, nothing fixed' if not fixed else 'no child rows, all fixed' if not free else 'no child rows, free variables remain')
+        ctx.case(('pfull', pi, n, childk, m, repr(fixed)), nontrivial=n > 0, sample=dict(call=call, problem=src[:300]) if pi % 97 == 5 else None)
+        ctx.tick(f'r7:pfull {branch}')
+        try:
+            ss = dimod.PolyFixedVariableComposite(child).sample_poly(prob.poly(), fixed_variables=None if fixed is None else dict(fixed))
+        except Exception as e:  # noqa
+            ctx.fail('property', site, f'{type(e).__name__} {branch}', f'{call}: {type(e).__name__}: {e}', repro=PRE + src + call + '\n')
+            continue
+        # predicate, independent of the model: number of rows of the branch, then every row against the submitted problem
+        want_rows = (2 ** len(free) if (childk == 'exact' and free) else 1 if (fixed and not free) else 0)
+        if len(ss) != want_rows:
+            ctx.fail('property', site, f'number of rows ({branch})', f'{call}: {len(ss)} rows, expected {want_rows}',
+                     repro=PRE + src + f'ss = {call}\nassert len(ss) == {want_rows}, len(ss)\n')
+            continue
+        extra = [v for v in (fixed or {}) if v not in prob.labels]
+        fx = {v: F(x) for v, x in (fixed or {}).items()}
+        if len(ss) or set(ss.variables) != set(prob.labels) | set(extra):
+            if not validate(ctx, ss, prob, site, f'{prob.vartype} {branch}', src, call, aux=extra,
+                            exact=free if (childk == 'exact' and free) else None, fixed=fx or None):
+                continue
+        corr.add(f"pfull {int(prob.spin)} {childk} {'none' if fixed is None else 'some'} ; {prob.wire()} ; "
+                 + (','.join(f'{lab(v)}={rat(x)}' for v, x in (fixed or {}).items()) or '-'), _rows_exp(rows_of(ss)), site, src + call)
+    # ---- (c) TruncateComposite / PolyTruncateComposite: n < 1 refused at construction, otherwise min(n, len) child rows in order
+    for pi in range(ctx.scale(300, 4000)):
+        prob = PolyProblem(r, nmax=3)
+        if not prob.labels:
+            continue
+        tn, agg = r.randint(-2, 6), r.random() < .4
+        poly = r.random() < .5
+        src = prob.src()
+        ctor = 'PolyTruncateComposite' if poly else 'TruncateComposite'
+        inner = 'dimod.ExactPolySolver()' if poly else 'dimod.ExactSolver()'
+        call = f'dimod.{ctor}({inner}, {tn}, sorted_by=None, aggregate={agg})'
+        site = f'{ctor}.__init__'
+        ctx.case(('tinit', pi, tn, agg, poly), nontrivial=True); ctx.tick(f'r7:tinit {ctor} ' + ('n<1' if tn < 1 else 'n>=1'))
+        try:
+            comp = getattr(dimod, ctor)(dimod.ExactPolySolver() if poly else dimod.ExactSolver(), tn, sorted_by=None, aggregate=agg)
+            refused = False
+        except ValueError:
+            refused = True
+        if refused != (tn < 1):
+            ctx.fail('property', site, 'n < 1', f'{call}: {"refused" if refused else "accepted"}',
+                     repro=PRE + (f'try:\n    {call}\nexcept ValueError:\n    pass\nelse:\n    raise AssertionError("accepted")\n' if tn < 1 else call + '\n'))
+            continue
+        rec = lambda s_: [('.'.join(str(int(x)) for x in row), rat(fr(e)), int(o)) for row, e, o in zip(s_.record.sample, s_.record.energy, s_.record.num_occurrences)]  # noqa: E731
+        if poly:
+            childss = dimod.ExactPolySolver().sample_poly(prob.poly())
+            out = None if refused else comp.sample_poly(prob.poly())
+        else:
+            if any(len(k) > 2 for k in prob.terms) or prob.spin and False:
+                continue
+            lin = {next(iter(k)): float(b) for k, b in prob.terms.items() if len(k) == 1}
+            quad = {tuple(k): float(b) for k, b in prob.terms.items() if len(k) == 2}
+            bqm = BQM(lin, quad, float(prob.terms.get(frozenset(), 0)), prob.vartype)
+            childss = dimod.ExactSolver().sample(bqm)
+            out = None if refused else comp.sample(bqm)
+        if out is not None:
+            if len(out) != min(tn, len(childss)) or rec(out) != rec(childss)[:len(out)]:
+                ctx.fail('property', f'{ctor}.sample' + ('_poly' if poly else ''), 'sorted_by=None', f'{call}: rows {rec(out)} of child rows {rec(childss)}',
+                         repro=PRE + src + '# ' + call + '\nassert False\n')
+                continue
+        corr.add(f'tinit {tn} 0 {int(agg)} ; ' + '|'.join('@'.join(map(str, t)) for t in rec(childss)),
+                 'err' if out is None else 'ok ' + '|'.join('@'.join(map(str, t)) for t in rec(out)), site, src + call)
+
+    # ---- (d) ExactPolySolver.sample_poly / ExactSolver.sample as coded: rows in record order against `exactRows`
+    def ordered(ss):
+        labels = list(ss.variables)
+        return '|'.join(','.join(sorted(f'{lab(v)}={rat(fr(x))}' for v, x in zip(labels, row))) + '@' + rat(fr(e))
+                        for row, e in zip(ss.record.sample, ss.record.energy))
+    for pi in range(ctx.scale(400, 6000)):
+        # `vars` of the model = list(problem.variables) of the very object handed to the solver (the gray-code column order);
+        # the sample set may present its columns in another (sorted) order, so rows are compared by label
+        if r.random() < .5:
+            prob = PolyProblem(r)
+            obj = prob.poly()
+            ss = dimod.ExactPolySolver().sample_poly(obj)
+            call, site = 'dimod.ExactPolySolver().sample_poly(POLY)', 'ExactPolySolver.sample_poly'
+            line = f"xsolve {int(prob.spin)} poly ; {','.join(lab(v) for v in obj.variables) or '-'} ; {prob.wire()}"
+        else:
+            prob = BqmProblem(r, nmax=4)
+            obj = prob.bqm()
+            ss = dimod.ExactSolver().sample(obj)
+            call, site = 'dimod.ExactSolver().sample(BQM)', 'ExactSolver.sample'
+            line = f"xsolve {int(prob.spin)} bqm ; {','.join(lab(v) for v in obj.variables) or '-'} ; " + wire_bqm(prob)
+        n = len(prob.labels)
+        ctx.case(('xsolve', pi, site, n), nontrivial=n > 0); ctx.tick(f'r7:xsolve {site}' + (' n=0' if n == 0 else ''))
+        if not validate(ctx, ss, prob, site, f'{prob.vartype} as coded', prob.src(), call, exact=prob.labels if n else None):
+            continue
+        if n == 0 and len(ss) != 0:
+            ctx.fail('property', site, 'no variables', f'{len(ss)} rows for a problem without variables', repro=PRE + prob.src() + f'assert len({call}) == 0\n')
+            continue
+        corr.add(line, ordered(ss), site, prob.src() + call)
+
+
+
+# ------------------------------------------------------------------ section H: histories on ONE sampler object (r7d)
+
+HIST_STACKS = [
+    # (source, exact?, kwargs source)
+    ('dimod.ExactSolver()', True, ''),
+    ('dimod.RandomSampler()', False, 'num_reads=3, seed=5'),
+    ('dimod.SimulatedAnnealingSampler()', False, 'num_reads=2, num_sweeps=3'),
+    ('dimod.TruncateComposite(dimod.ExactSolver(), 3)', False, ''),
+    ('dimod.TrackingComposite(dimod.ExactSolver())', True, ''),
+    ('dimod.TrackingComposite(dimod.TruncateComposite(dimod.RandomSampler(), 2), copy=True)', False, 'num_reads=4'),
+    ('dimod.StructureComposite(dimod.ExactSolver(), NODES, EDGES)', True, ''),
+    ('dimod.NullSampler()', False, ''),
+]
+HIST_POLY_STACKS = [
+    ('dimod.ExactPolySolver()', True, ''),
+    ('dimod.HigherOrderComposite(dimod.ExactSolver())', False, ''),
+    ('dimod.PolyScaleComposite(dimod.ExactPolySolver())', True, 'scalar=.5'),
+    ('dimod.PolyTruncateComposite(dimod.ExactPolySolver(), 3)', False, ''),
+    ('dimod.PolyFixedVariableComposite(dimod.ExactPolySolver())', True, 'fixed_variables={}'),
+    ('dimod.PolySampler.sample_hising', None, ''),     # placeholder: entry chosen below
+]
+
+
+class _HistProb:
+    """the CURRENT input of a history step as the oracle sees it (plain dicts of Fractions)"""
+
+    def __init__(self, labels, lin, quad, off, spin):
+        self.labels, self.lin, self.quad, self.off, self.spin = list(labels), dict(lin), dict(quad), off, spin
+
+    def domain(self, v):
+        return (-1, 1) if self.spin else (0, 1)
+
+    def energy(self, x):
+        return self.off + sum(b * x[v] for v, b in self.lin.items()) + sum(b * x[u] * x[v] for (u, v), b in self.quad.items())
+
+
+def _hist_energy_src(prob):
+    return (f'LIN, QUAD, OFF = { {v: str(b) for v, b in prob.lin.items()}!r}, { {k: str(b) for k, b in prob.quad.items()}!r}, {str(prob.off)!r}\n'
+            'def energy(x):\n    return F(OFF) + sum(F(b) * x[v] for v, b in LIN.items()) + sum(F(b) * x[u] * x[v] for (u, v), b in QUAD.items())\n')
+
+
+def section_histories(ctx, r, corr):
+    """every entry point called several times on ONE sampler object, the input containers mutated IN PLACE between the calls
+    (a bias value, a key replaced by another with the same number of entries, an entry added); each call's rows are checked
+    against the CURRENT input.  Catches state kept on the sampler between calls (memoised conversions, stale structure, …)."""
+    labels_pool = ['a', 'b', 'c', 'z', 0, 1, 5]
+    for hi in range(ctx.scale(260, 4000)):
+        entry = r.choice(['sample_ising', 'sample_ising', 'sample_qubo', 'sample_qubo', 'sample', 'sample_ising-list'])
+        stack_src, exact, kwsrc = r.choice(HIST_STACKS)
+        n = r.randint(1, 4)
+        labels = list(range(n)) if entry == 'sample_ising-list' else r.sample(labels_pool, n)
+        pairs = [(u, v) for i, u in enumerate(labels) for v in labels[i + 1:] if r.random() < .7]
+        spin = entry.startswith('sample_ising') or (entry == 'sample' and r.random() < .5)
+        ns = {'dimod': dimod, 'np': np, 'F': F, 'NODES': labels_pool + ['q', 'w', 2, 3]}
+        lines = [f'NODES = {ns["NODES"]!r}', 'EDGES = [(u, v) for i, u in enumerate(NODES) for v in NODES[i + 1:]]', f'S = {stack_src}']
+        lin = {v: dy(r) for v in labels}
+        quad = {p: dy(r) for p in pairs}
+        off = F(0)
+        if entry == 'sample_ising':
+            lines += [f'h = { {v: float(b) for v, b in lin.items()}!r}', f'J = { {k: float(b) for k, b in quad.items()}!r}']
+            call = f'S.sample_ising(h, J{", " + kwsrc if kwsrc else ""})'
+        elif entry == 'sample_ising-list':
+            lines += [f'h = {[float(lin[v]) for v in labels]!r}', f'J = { {k: float(b) for k, b in quad.items()}!r}']
+            call = f'S.sample_ising(h, J{", " + kwsrc if kwsrc else ""})'
+        elif entry == 'sample_qubo':
+            lines += [f'Q = { {**{(v, v): float(b) for v, b in lin.items()}, **{k: float(b) for k, b in quad.items()}}!r}']
+            call = f'S.sample_qubo(Q{", " + kwsrc if kwsrc else ""})'
+        else:
+            off = dy(r)
+            lines += [f'bqm = dimod.BinaryQuadraticModel({ {v: float(b) for v, b in lin.items()}!r}, { {k: float(b) for k, b in quad.items()}!r}, {float(off)!r}, {"SPIN" if spin else "BINARY"!r})']
+            call = f'S.sample(bqm{", " + kwsrc if kwsrc else ""})'
+        pyrandom.seed(r.randrange(10 ** 6))
+        try:
+            for ln in lines:
+                exec(ln, ns)
+        except Exception as e:  # noqa
+            ctx.fail('property', stack_src, 'construction', f'{type(e).__name__}: {e}', repro=PRE + '\n'.join(lines) + '\n')
+            continue
+        nsteps = r.choice([2, 3, 3, 4])
+        for step in range(nsteps):
+            if step:
+                # ---- mutate the very same containers in place
+                kind = r.choice(['value', 'value', 'value', 'qvalue', 'swapkey', 'grow', 'offset'])
+                free = [x for x in labels_pool + ['q', 'w'] if x not in labels]
+                if kind == 'qvalue' and not quad:
+                    kind = 'value'
+                if kind in ('swapkey', 'grow') and (entry == 'sample_ising-list' or not free):
+                    kind = 'value'
+                if kind == 'offset' and entry != 'sample':
+                    kind = 'value'
+                if kind == 'value':
+                    v = r.choice(labels)
+                    nb = lin[v] + r.choice([F(1), F(-3, 2), F(5, 8), F(-7)])
+                    lin[v] = nb
+                    mut = {'sample_ising': f'h[{v!r}] = {float(nb)!r}', 'sample_ising-list': f'h[{v!r}] = {float(nb)!r}',
+                           'sample_qubo': f'Q[({v!r}, {v!r})] = {float(nb)!r}', 'sample': f'bqm.set_linear({v!r}, {float(nb)!r})'}[entry]
+                elif kind == 'qvalue':
+                    k = r.choice(list(quad))
+                    nb = quad[k] + r.choice([F(1), F(-3, 2), F(5, 8), F(-7)])
+                    quad[k] = nb
+                    mut = {'sample_ising': f'J[{k!r}] = {float(nb)!r}', 'sample_ising-list': f'J[{k!r}] = {float(nb)!r}',
+                           'sample_qubo': f'Q[{k!r}] = {float(nb)!r}', 'sample': f'bqm.set_quadratic({k[0]!r}, {k[1]!r}, {float(nb)!r})'}[entry]
+                elif kind == 'offset':
+                    off = off + F(3, 2)
+                    mut = f'bqm.offset = {float(off)!r}'
+                elif kind == 'swapkey':
+                    # one variable leaves, another comes: the same number of entries
+                    old, newv = r.choice(labels), r.choice(free)
+                    b = lin.pop(old)
+                    lin[newv] = b
+                    labels[labels.index(old)] = newv
+                    quad = {tuple(newv if x == old else x for x in k): bb for k, bb in quad.items()}
+                    if entry == 'sample_ising':
+                        mut = (f'h[{newv!r}] = h.pop({old!r})\nfor k in [k for k in J if {old!r} in k]: J[tuple({newv!r} if x == {old!r} else x for x in k)] = J.pop(k)')
+                    elif entry == 'sample_qubo':
+                        mut = f'for k in [k for k in Q if {old!r} in k]: Q[tuple({newv!r} if x == {old!r} else x for x in k)] = Q.pop(k)'
+                    else:
+                        mut = f'bqm.relabel_variables({{{old!r}: {newv!r}}}, inplace=True)'
+                else:
+                    newv = r.choice(free)
+                    nb = dy(r)
+                    lin[newv] = nb
+                    labels.append(newv)
+                    mut = {'sample_ising': f'h[{newv!r}] = {float(nb)!r}', 'sample_qubo': f'Q[({newv!r}, {newv!r})] = {float(nb)!r}',
+                           'sample': f'bqm.add_linear({newv!r}, {float(nb)!r})'}[entry]
+                lines.append(mut)
+                ctx.tick(f'history: in-place {kind} before call {step + 1}')
+                try:
+                    exec(mut, ns)
+                except Exception as e:  # noqa
+                    ctx.fail('property', 'history mutation', kind, f'{type(e).__name__}: {e}', repro=PRE + '\n'.join(lines) + '\n')
+                    break
+            lines.append('ss = ' + call)
+            prob = _HistProb(labels, lin, quad, off, spin)
+            site = stack_src.split('(')[0].replace('dimod.', '') + '.' + entry.split('-')[0]
+            cls = 'first call' if step == 0 else f'same sampler object, input mutated in place ({kind})'
+            ctx.tick(f'history: {entry} call {step + 1}')
+            ctx.case(('history', stack_src, entry, tuple(lines)), nontrivial=True)
+            try:
+                exec('ss = ' + call, ns)
+            except Exception as e:  # noqa
+                ctx.fail('property', site, cls, f'{type(e).__name__}: {e}', repro=PRE + '\n'.join(lines) + '\n')
+                break
+            ss = ns['ss']
+            if 'NullSampler' in stack_src:
+                if len(ss) != 0 or set(ss.variables) != set(labels):
+                    ctx.fail('property', site, cls, f'NullSampler returned {len(ss)} rows over {list(ss.variables)!r}',
+                             repro=PRE + '\n'.join(lines) + f'\nassert len(ss) == 0 and set(ss.variables) == set({labels!r})\n')
+                    break
+                continue
+            f = predicate(ss, prob, cls, exact=list(labels) if exact else None)
+            if f is not None:
+                ic, what, assertion = f
+                ctx.fail('property', site, cls if ic == cls else cls + ': ' + ic, what,
+                         repro=PRE + '\n'.join(lines) + '\n' + _hist_energy_src(prob) + assertion + '\n', detail=dict(history='\n'.join(lines)))
+                break
+    # ---- polynomial entry points: the polynomial / h, J objects mutated in place
+    for hi in range(ctx.scale(120, 2000)):
+        stack_src, exact, kwsrc = r.choice(HIST_POLY_STACKS[:5])
+        entry = r.choice(['sample_poly', 'sample_hising', 'sample_hubo'])
+        n = r.randint(1, 4)
+        labels = r.sample(labels_pool, n)
+        spin = entry == 'sample_hising' or (entry == 'sample_poly' and r.random() < .5)
+        terms = {}
+        for v in labels:
+            if r.random() < .8:
+                terms[(v,)] = dy(r)
+        for k in (2, 3):
+            for t in itertools.combinations(labels, k):
+                if r.random() < .4:
+                    terms[t] = dy(r)
+        if not terms:
+            terms[(labels[0],)] = F(1)
+        ns = {'dimod': dimod, 'np': np, 'F': F, 'BinaryPolynomial': BinaryPolynomial}
+        lines = [f'S = {stack_src}']
+        kws = (', ' + kwsrc) if kwsrc else ''
+        if entry == 'sample_poly':
+            lines.append(f'poly = BinaryPolynomial({ {t: float(b) for t, b in terms.items()}!r}, {"SPIN" if spin else "BINARY"!r})')
+            call = f'S.sample_poly(poly{kws})'
+        elif entry == 'sample_hising':
+            lines += [f'h = { {t[0]: float(b) for t, b in terms.items() if len(t) == 1}!r}', f'J = { {t: float(b) for t, b in terms.items() if len(t) > 1}!r}']
+            call = f'S.sample_hising(h, J{kws})'
+        else:
+            lines.append(f'H = { {t: float(b) for t, b in terms.items()}!r}')
+            call = f'S.sample_hubo(H{kws})'
+        try:
+            for ln in lines:
+                exec(ln, ns)
+        except Exception as e:  # noqa
+            ctx.fail('property', stack_src, 'construction', f'{type(e).__name__}: {e}', repro=PRE + '\n'.join(lines) + '\n')
+            continue
+        for step in range(r.choice([2, 3])):
+            if step:
+                t = r.choice(list(terms))
+                nb = terms[t] + r.choice([F(1), F(-3, 2), F(5, 8), F(-7)])
+                terms[t] = nb
+                if entry == 'sample_poly':
+                    mut = f'poly[{t!r}] = {float(nb)!r}'
+                elif entry == 'sample_hising':
+                    mut = f'h[{t[0]!r}] = {float(nb)!r}' if len(t) == 1 else f'J[{t!r}] = {float(nb)!r}'
+                else:
+                    mut = f'H[{t!r}] = {float(nb)!r}'
+                lines.append(mut)
+                ctx.tick(f'history: in-place term value before {entry} call {step + 1}')
+                exec(mut, ns)
+            lines.append('ss = ' + call)
+            site = stack_src.split('(')[0].replace('dimod.', '') + '.' + entry
+            cls = 'first call' if step == 0 else 'same sampler object, input mutated in place (term value)'
+            ctx.tick(f'history: {entry} call {step + 1}')
+            ctx.case(('history', stack_src, entry, tuple(lines)), nontrivial=True)
+            try:
+                exec('ss = ' + call, ns)
+            except Exception as e:  # noqa
+                ctx.fail('property', site, cls, f'{type(e).__name__}: {e}', repro=PRE + '\n'.join(lines) + '\n')
+                break
+            ss = ns['ss']
+            used = [v for v in labels if any(v in t for t in terms)]
+            what = None
+            if not set(used) <= set(ss.variables):
+                what = f'variables {list(ss.variables)!r} do not cover the polynomial\'s {used!r}'
+            else:
+                dom = (-1, 1) if spin else (0, 1)
+                for row, e in rows_of(ss):
+                    x = {v: F(int(row[v])) for v in used}
+                    w = F(0)
+                    for t, b in terms.items():
+                        pr = b
+                        for v in t:
+                            pr *= x[v]
+                        w += pr
+                    if any(x[v] not in dom for v in used):
+                        what = f'value outside the domain {dom} in {dict(row)}'
+                        break
+                    if e != w:
+                        what = f'row { {v: int(x[v]) for v in used} } reported with energy {e}, the submitted polynomial gives {w}'
+                        break
+                if what is None and exact and len(ss) != 2 ** len(set(ss.variables)):
+                    what = f'{len(ss)} rows for {len(set(ss.variables))} variables'
+            if what is not None:
+                ctx.fail('property', site, cls, what,
+                         repro=PRE + '\n'.join(lines) + f'\nTERMS = { {t: str(b) for t, b in terms.items()}!r}\n'
+                         'import math\nfor row, e in ss.data(["sample", "energy"], sorted_by=None):\n'
+                         '    w = sum(F(b) * math.prod(int(row[v]) for v in t) for t, b in TERMS.items())\n'
+                         '    assert F(float(e)) == w, (dict(row), e, w)\n', detail=dict(history='\n'.join(lines)))
+                break
+
 def run(ctx):
     r = ctx.rng
     ctx.rule = ('random small problems (0-5 variables over mixed labels in non-sorted order, dyadic biases, constants, both vartypes) x '
@@ -1219,6 +1683,8 @@ def run(ctx):
     section_draws(ctx, r, corr)
     section_dqm(ctx, r, corr)
     section_cqm(ctx, r, corr)
+    section_round7(ctx, r, corr)
+    section_histories(ctx, r, corr)
     got = run_driver('enumdriver', corr.lines)
     ctx.corr_lines += len(corr.lines)
     for i, ln in enumerate(corr.lines):
